@@ -126,6 +126,8 @@ class Server:
         from . import child
         child.preinstall_monitor()
         self.cache_dir = cache_dir
+        self.peer = None          # a Peer (sim.variant): second reference model, lazily started
+        self.peer_variant = None
         self.mem = {}
         self.stats = {"golden_evals": 0, "golden_mem_hits": 0, "golden_disk_hits": 0,
                       "sim_runs": 0, "golden_time": 0.0, "sim_time": 0.0}
@@ -190,6 +192,7 @@ class Server:
                 self.h9_mismatches.append({"req": req, "here": g["outcome"],
                                            "there": other["outcome"],
                                            "there_by": other.get("by")})
+        self.dual_check(req, g, key)
         if use_cache:
             self.mem[key] = g
             if self.cache_dir:
@@ -200,6 +203,39 @@ class Server:
                     json.dump(g, f)
                 os.replace(tmp, os.path.join(d, key))
         return g
+
+    def dual_check(self, req, g, key):
+        """H9: evaluate a freshly computed golden value a second time, alone, in the
+        peer process variant (other hash seed, import order, -O level).  Done for
+        every request that carries a collection with repeated elements (what set /
+        dict based de-duplication and ordering feeds on), for every rejection (a call
+        that raises or returns False: validation is where assert statements and
+        __debug__ switches hide) and for a key-determined eighth of the others."""
+        if self.peer_variant is None or "outcome" not in g or _resource(g["outcome"]):
+            return
+        if req["fn"][0] in ("lazy", "sim"):
+            return
+        rejected = g["outcome"][0] == "raised" or g["outcome"] == ["ret", ["bool", 0]]
+        if not (rejected or _has_repeats(req.get("args")) or int(key[:4], 16) % 8 == 0):
+            return
+        if rejected and g.get("count", 0) > 400000 and int(key[:4], 16) % 4:
+            return        # expensive rejections (a full pairing that says no): a quarter
+        if self.peer is None:
+            from .variant import Peer
+            self.peer = Peer(self.peer_variant)
+        t = time.monotonic()
+        other = self.peer.eval({k: req[k] for k in ("fn", "args", "kw", "adhoc") if k in req})
+        self.stats["peer_time"] = self.stats.get("peer_time", 0.0) + time.monotonic() - t
+        if other is None:
+            if self.peer.start_error and not self.stats.get("peer_start_failure"):
+                self.stats["peer_start_failure"] = 1
+                self.peer_start_error = self.peer.start_error
+            return
+        self.stats["peer_dual_evals"] = self.stats.get("peer_dual_evals", 0) + 1
+        if other != g["outcome"] and not _resource(other):
+            self.h9_mismatches.append({"req": req, "here": g["outcome"], "there": other,
+                                       "there_by": "peer variant %s" % json.dumps(
+                                           self.peer_variant)})
 
     # ------------------------------------------------------------------
     def arg_canon(self, spec, regc):
@@ -424,6 +460,24 @@ class Server:
                                  "detail": {"got_digest": od, "golden_digest": gold["od"],
                                             "got": _short(oc), "golden": _short(gout)}})
         return viol, cnt
+
+
+def _has_repeats(c, depth=0):
+    """does a canonical argument structure contain a list/tuple with a repeated element"""
+    if depth > 4 or not isinstance(c, list):
+        return False
+    if len(c) == 2 and c[0] in ("list", "tuple") and isinstance(c[1], list):
+        items = c[1]
+        seen = set()
+        for x in items:
+            if type(x) is int or x is None:
+                continue                     # coefficient lists repeat small ints all the time
+            k = json.dumps(x, sort_keys=True)
+            if k in seen:
+                return True
+            seen.add(k)
+        return any(_has_repeats(x, depth + 1) for x in items)
+    return any(_has_repeats(x, depth + 1) for x in c if isinstance(x, list))
 
 
 def _resource(outcome):
